@@ -231,7 +231,7 @@ def rule_emp(S):
     exits = {'ok': True, 'path': None, 'what': None}
 
     def tree_term(n):
-        return term_str(term(f, n))
+        return term_str(term(f, n, res=True))
 
     def step(ctx, n, st):
         if n['k'] == 'CXXDeleteExpr':
